@@ -122,6 +122,9 @@ Definition rearrange_k2_k1_into_k1 (k : fds) : kerr + fds :=
 (* crop window [start, start + recon) with start = enc // 2 - recon // 2, applied to the image along k0, to every trajectory
    component that is not a singleton along k0, and subtracted from center_sample (r = 7).  On ids: output sample j stands
    for source sample start + j (the data values themselves are FFT - crop - FFT of the source readout). *)
+(* crop start: the image centre enc // 2 stays the centre recon // 2 *)
+Definition os_start (enc recon : Z) : Z := enc / 2 - recon / 2.
+
 Definition remove_readout_os (k : fds) : kerr + fds :=
   if reconx k =? encx k then inr k
   else if encx k <? reconx k then inl ErrValue
